@@ -5,7 +5,7 @@ use crate::cases::*;
 use crate::core::*;
 use crate::gens::*;
 use crate::obs::*;
-use refimpl::codec::Mode;
+use refimpl::codec::{ref_decode, Mode};
 use serde_json::Value;
 use std::sync::Arc;
 
@@ -13,11 +13,56 @@ pub static PROP: Prop = Prop {
     id: "C13",
     run,
     replay,
-    rule: "cases = (input, list incl. fitted lists, one of the 63 non-empty mode subsets with extra weight on singletons / sets without ASCII / complements of one mode, macro flag); oracle = every latch the mode-tracking reference decoder finds names an enabled mode, and with ASCII disabled ASCII-carried characters appear only as the standard's end-of-data fallback (last segment, <= 4 characters in <= 4 codewords, directly after a C40/Text/X12/EDIFACT latch or run, only padding behind); non-trivial = mode set != all AND stream has >= 1 latch; distinct by (input, configuration)",
+    rule: "cases = (input, list incl. fitted lists, one of the 63 non-empty mode subsets with extra weight on singletons / sets without ASCII / complements of one mode, macro flag); oracle = every latch the mode-tracking reference decoder finds names an enabled mode, and with ASCII disabled ASCII-carried characters appear only as the standard's end-of-data fallback (last segment, directly after a C40/Text/X12/EDIFACT latch or run, only padding behind, and no more than that mode's own end-of-data rule can leave: after C40/Text one character or one digit pair, after X12 at most two characters, after EDIFACT at most four characters in at most two codewords); the same oracle is applied to the stream of the string entry point encode_str when the input is valid UTF-8; non-trivial = mode set != all AND stream has >= 1 latch; distinct by (input, configuration)",
     assumptions: &["pad, unlatch, macro, FNC1 and ECI codewords are not 'use of ASCII mode'", "the fallback rule is the widest reading of 'the final few characters': EDIFACT's <= 2 codewords (<= 4 digits), C40/Text rules c/d, and X12's 'unlatch and encode the remaining one or two characters in ASCII' (5.2.7.2; up to 4 codewords with upper shift)"],
     extra: super::no_extra,
     fuzz_runs: 50000,
 };
+
+/// the structural oracle on one decoded stream
+fn structure(cw: &[u8], d: &refimpl::codec::Decoded, modes: u8, data: &[u8]) -> Result<(bool, (usize, usize), String), String> {
+    let enabled = |m: Mode| modes & m.bit() != 0;
+    for (i, l) in d.latches.iter().enumerate() {
+        if !enabled(*l) {
+            return Err(format!("latch #{} switches to {:?} which is not enabled (enabled {}; input {:?}, codewords {:?})", i + 1, l, mode_names(modes), show(data), cw));
+        }
+    }
+    let mut fallback_used = false;
+    let mut fb = (0usize, 0usize);
+    let mut fbmode = String::new();
+    if !enabled(Mode::Ascii) {
+        let n = d.segs.len();
+        for (i, s) in d.segs.iter().enumerate() {
+            if s.mode != Mode::Ascii || s.out_end == s.out_start {
+                continue;
+            }
+            let chars = s.out_end - s.out_start;
+            let cws = s.cw_end - s.cw_start;
+            let is_last = i + 1 == n;
+            let after_fallback_mode = i > 0 && matches!(d.segs[i - 1].mode, Mode::C40 | Mode::Text | Mode::X12 | Mode::Edifact) && d.segs[i - 1].cw_end <= s.cw_start;
+            // what each mode's own end-of-data rule can leave to ASCII: C40 / Text - the one character (or
+            // digit pair) that no longer fills a triple; X12 - the one or two characters behind the last
+            // complete triple; EDIFACT - the rest that fits two ASCII codewords (up to four digits)
+            let shape_ok = after_fallback_mode
+                && match d.segs[i - 1].mode {
+                    Mode::C40 | Mode::Text => (chars == 1 && cws <= 2) || (chars == 2 && cws == 1),
+                    Mode::X12 => chars <= 2 && cws <= 4,
+                    Mode::Edifact => cws <= 2 && chars <= 4,
+                    _ => false,
+                };
+            if !(is_last && shape_ok) {
+                return Err(format!(
+                    "ASCII is disabled but {} character(s) {:?} are carried by {} ASCII codeword(s) at codeword {} (last segment: {}, after C40/Text/X12/EDIFACT: {}; enabled {}; input {:?}, codewords {:?})",
+                    chars, show(&d.bytes[s.out_start..s.out_end]), cws, s.cw_start, is_last, after_fallback_mode, mode_names(modes), show(data), cw
+                ));
+            }
+            fallback_used = true;
+            fb = (cws, chars);
+            fbmode = format!("{:?}", d.segs[i - 1].mode);
+        }
+    }
+    Ok((fallback_used, fb, fbmode))
+}
 
 pub fn check(c: &EncCase) -> Verdict {
     if c.list == 0 || c.modes == 0 {
@@ -33,34 +78,24 @@ pub fn check(c: &EncCase) -> Verdict {
         Ok(d) => d,
         Err(_) => return Verdict::Pass(Pass::new("stream-not-conformant(C02)", false).count("not_conformant", 1)),
     };
-    let enabled = |m: Mode| c.modes & m.bit() != 0;
-    for (i, l) in d.latches.iter().enumerate() {
-        if !enabled(*l) {
-            return fail(format!("latch #{} switches to {:?} which is not enabled (enabled {}; input {:?}, codewords {:?})", i + 1, l, mode_names(c.modes), show(&c.data), cw));
-        }
-    }
-    let mut fallback_used = false;
-    if !enabled(Mode::Ascii) {
-        let n = d.segs.len();
-        for (i, s) in d.segs.iter().enumerate() {
-            if s.mode != Mode::Ascii || s.out_end == s.out_start {
-                continue;
+    let (fallback_used, fb, fbmode) = match structure(cw, &d, c.modes, &c.data) {
+        Ok(x) => x,
+        Err(e) => return fail(e),
+    };
+    // the string entry point obeys the same restriction
+    if c.eci.is_none() && !c.fnc1 {
+        if let Ok(text) = std::str::from_utf8(&c.data) {
+            if let Ok(Ok(dm2)) = guard(|| c.builder().encode_str(text)) {
+                if let Ok(d2) = ref_decode(dm2.data_codewords()) {
+                    if let Err(e) = structure(dm2.data_codewords(), &d2, c.modes, &c.data) {
+                        return fail(format!("encode_str: {}", e));
+                    }
+                }
             }
-            let chars = s.out_end - s.out_start;
-            let cws = s.cw_end - s.cw_start;
-            let is_last = i + 1 == n;
-            let after_fallback_mode = i > 0 && matches!(d.segs[i - 1].mode, Mode::C40 | Mode::Text | Mode::X12 | Mode::Edifact) && d.segs[i - 1].cw_end <= s.cw_start;
-            if !(is_last && cws <= 4 && chars <= 4 && after_fallback_mode) {
-                return fail(format!(
-                    "ASCII is disabled but {} character(s) {:?} are carried by {} ASCII codeword(s) at codeword {} (last segment: {}, after C40/Text/X12/EDIFACT: {}; enabled {}; input {:?}, codewords {:?})",
-                    chars, show(&d.bytes[s.out_start..s.out_end]), cws, s.cw_start, is_last, after_fallback_mode, mode_names(c.modes), show(&c.data), cw
-                ));
-            }
-            fallback_used = true;
         }
     }
     let nontrivial = c.modes != 63 && !d.latches.is_empty();
-    Verdict::Pass(Pass::new(format!("{}/{}{}", modes_class(c.modes), stream_class(&d), if fallback_used { "/ascii-fallback" } else { "" }), nontrivial).count("no_ascii_cases", (c.modes & 1 == 0) as u64))
+    Verdict::Pass(Pass::new(format!("{}/{}{}", modes_class(c.modes), stream_class(&d), if fallback_used { format!("/ascii-fallback-after-{}-{}cw-{}ch", fbmode, fb.0, fb.1) } else { String::new() }), nontrivial).count("no_ascii_cases", (c.modes & 1 == 0) as u64))
 }
 
 fn run(ctx: &Arc<Ctx>) {
